@@ -131,6 +131,9 @@ func (m *Merger) cat() (rec *sam.Record, err error) {
 		err = nil
 	}
 	if rec == nil {
+		if err != nil {
+			return nil, err
+		}
 		return m.Read()
 	}
 	m.reassignReference(id, rec)
